@@ -354,12 +354,25 @@ class Problem:
                                           entropy=self.entropy, levy_area_approximation=self.c["levy"])
         return RecordingBrownian(inner, max_calls=max_calls)
 
-    def sdeint(self, ts_f, dt, bm, y0=None, **kw):
+    def sdeint(self, ts_f, dt, bm, y0=None, options_obj=None, **kw):
         c = self.c
         ts = list(ts_f) if c["ts_kind"] == "list" else torch.tensor(ts_f, dtype=self.dtype)
-        opts = dict(c["options"]) if c["options"] else None
+        # options_obj: ONE dict object the caller keeps and passes to every call (instead of a fresh dict per call)
+        opts = options_obj if options_obj is not None else (dict(c["options"]) if c["options"] else None)
         return torchsde.sdeint(self.sde, self.y0 if y0 is None else y0, ts, bm=bm, method=c["method"], dt=dt,
                                options=opts, **kw)
+
+    def unrelated_solve(self, options_obj):
+        """Another, unrelated solve that shares the caller's options dict (a Milstein solve of an additive-noise SDE,
+        when the configuration is Milstein; otherwise the same method on a fresh problem): what happens between two
+        chunks must not matter to the next chunk."""
+        c = self.c
+        sde_type = c["sde_type"]
+        if c["method"] == "milstein":
+            sde = LinearSDE(0.5, 0.25, noise_type="additive", sde_type=sde_type)
+            y = torch.ones(2, 2, dtype=self.dtype)
+            bm = torchsde.BrownianInterval(t0=0.0, t1=0.25, size=(2, 1), dtype=self.dtype, entropy=self.entropy + 1)
+            torchsde.sdeint(sde, y, [0.0, 0.25], bm=bm, method="milstein", dt=0.125, options=options_obj)
 
 
 class TickMap:
@@ -938,10 +951,16 @@ def chunked_run(p, tm, ts_u, rs, d, bm, pass_extra=True, rec=None):
     cuts = [0] + [i for i, u in enumerate(ts_u) if u in rs and 0 < i < len(ts_u) - 1] + [len(ts_u) - 1]
     y, extra = p.y0, None
     pieces = []
+    # the chunks share ONE options dict object, and an unrelated solve that uses the same dict runs between chunks
+    shared = dict(p.c["options"]) if p.c["options"] else None
     for a, b in zip(cuts[:-1], cuts[1:]):
         kw = {}
         if extra is not None and pass_extra:
             kw["extra_solver_state"] = extra
+        if shared is not None:
+            kw["options_obj"] = shared
+            if a > 0:
+                p.unrelated_solve(shared)
         ys, extra = p.sdeint(tm.ts(ts_u[a:b + 1]), tm.dt(d), bm, y0=y, extra=True, **kw)
         pieces.append(ys if a == 0 else ys[1:])
         y = ys[-1]
